@@ -149,7 +149,15 @@ def rule_V2(ctx, rid='V2'):
         if len(rets) != 1:
             ctx.note('%s not decided for %s: %d non-constant returns' % (rid, q, len(rets)))
             continue
-        terms = _split_sum(rets[0].value)
+        value = rets[0].value
+        if isinstance(value, (ast.Name, ast.Attribute)):
+            # the formula is stored first (e.g. memoised) and the stored value returned
+            asg = [st for st in walk_no_nested(f.node) if isinstance(st, ast.Assign) and
+                   len(st.targets) == 1 and unparse(st.targets[0]) == unparse(value) and
+                   not (isinstance(st.value, ast.Constant) and st.value.value is None)]
+            if len(asg) == 1:
+                value = asg[0].value
+        terms = _split_sum(value)
         logs = [(s, t) for s, t in terms if isinstance(t, ast.Call) and
                 dotted(t.func) in ('np.log', 'math.log') and len(t.args) == 1]
         others = [(s, t) for s, t in terms if (s, t) not in logs]
@@ -260,6 +268,46 @@ def rule_V2(ctx, rid='V2'):
                      for x in ast.walk(r.value))
         if plus_c and len(mats) == 1:
             inv_m = _self_attr(mats[0])
+    # the two directions translate by the centre in opposite senses
+    pc = mc = 0
+    for r in _returns(tr):
+        if any(isinstance(x, ast.BinOp) and isinstance(x.op, ast.Add) and
+               (_self_attr(x.right) == 'c' or _self_attr(x.left) == 'c')
+               for x in ast.walk(r.value)):
+            pc += 1
+        if any(isinstance(x, ast.BinOp) and isinstance(x.op, ast.Sub) and
+               _self_attr(x.right) == 'c' for x in ast.walk(r.value)):
+            mc += 1
+    n += 1
+    ctx.ob(rid, 'Ellipsoid.transform:translation-pair', pc == 1 and mc == 1, tr.where(),
+           'one direction subtracts the centre before the matrix, the other adds it after' if
+           pc == 1 and mc == 1 else
+           'the two directions of Ellipsoid.transform do not translate by the centre in opposite '
+           'senses (%d add it, %d subtract it): transform(inverse=True) does not undo transform()'
+           % (pc, mc))
+    # ... and that return is the one taken for inverse=True
+    if inv_m is not None:
+        for r in _returns(tr):
+            if not cfgt.has(r):
+                continue
+            plus_c = any(isinstance(x, ast.BinOp) and isinstance(x.op, ast.Add) and
+                         (_self_attr(x.right) == 'c' or _self_attr(x.left) == 'c')
+                         for x in ast.walk(r.value))
+            minus_c = any(isinstance(x, ast.BinOp) and isinstance(x.op, ast.Sub) and
+                          _self_attr(x.right) == 'c' for x in ast.walk(r.value))
+            if not (plus_c or minus_c):
+                continue
+            want = True if plus_c else False
+            facts = [tr_ for _, tx, tr_ in cfgt.facts(cfgt.node_of(r).id) if tx == 'inverse']
+            okb = bool(facts) and all(x == want for x in facts)
+            n += 1
+            ctx.ob(rid, 'Ellipsoid.transform:%s-branch' % ('inverse' if plus_c else 'forward'),
+                   okb, tr.where(r),
+                   'the %s map is returned for inverse=%s' % (
+                       'ball -> ellipsoid' if plus_c else 'ellipsoid -> ball', want) if okb else
+                   'the %s map is returned for inverse=%s: contains() and sample() use the '
+                   'transform in the opposite direction' % (
+                       'ball -> ellipsoid' if plus_c else 'ellipsoid -> ball', not want))
     rets = _returns(f)
     if inv_m is None or len(rets) != 1:
         ctx.note('%s not decided for Ellipsoid.log_v: matrix of the inverse transform or the '
@@ -268,11 +316,12 @@ def rule_V2(ctx, rid='V2'):
         try:
             coef_n, other = 0.0, {}
             for sg, t in _split_sum(rets[0].value):
-                k, core = _n_multiple(t)
+                k, core, core_inv = _n_multiple(t)
                 if isinstance(core, ast.Constant) and core.value == 1 and k is not None:
                     raise Undecided('bare multiple of n')
-                if k is not None and _const_value(core) is not None:
-                    coef_n += sg * float(k) * _const_value(core)
+                if k is not None and _const_value(core) not in (None, 0):
+                    cv = _const_value(core)
+                    coef_n += sg * float(k) * (1.0 / cv if core_inv else cv)
                     continue
                 key = _volume_atom(t)
                 if key is None:
@@ -397,12 +446,25 @@ def rule_V2(ctx, rid='V2'):
             sq = any(isinstance(x, ast.BinOp) and isinstance(x.op, ast.Pow) and
                      isinstance(x.right, ast.Constant) and x.right.value == 2
                      for x in ast.walk(v.left)) or 'norm' in unparse(v.left)
-            okc = bool(tcalls) and sq
+            axes = [unparse(k.value) for x in ast.walk(v.left) if isinstance(x, ast.Call)
+                    for k in x.keywords if k.arg == 'axis']
+            okc = bool(tcalls) and sq and bool(axes) and all(a in ('-1', '1') for a in axes)
     n += 1
     ctx.ob(rid, 'Ellipsoid.contains:unit-ball-in-forward-frame', okc, f.where(),
            'contains() tests |transform(x)|^2 against 1: the image of the unit ball under the '
            'matrix whose determinant log_v uses' if okc else
            'contains() is not the unit-ball test in the forward frame')
+    need = ['Union.log_v:proposal-region', 'Union.log_v:accepted-fraction',
+            'NautilusBound.log_v:proposal-region', 'NautilusBound.log_v:accepted-fraction',
+            'Ellipsoid.log_v:determinant-of-sampling-matrix',
+            'Ellipsoid.log_v:unit-ball-gamma-term', 'Ellipsoid.log_v:unit-ball-pi-term',
+            'Ellipsoid.compute:forward-matrix-is-inverse', 'Ellipsoid.sample:radius-exponent',
+            'Ellipsoid.transform:inverse-branch', 'Ellipsoid.transform:forward-branch']
+    have = {o.construct for o in ctx.obligations if o.rule == rid}
+    missing = [c for c in need if c not in have]
+    if missing:
+        ctx.floor_failures.append('rule %s could not decide %s (%s)' % (
+            rid, missing, '; '.join(x for x in ctx.notes if x.startswith(rid))[:300]))
     return n
 
 
@@ -459,18 +521,18 @@ def _n_multiple(t):
     flat(t)
     ns = [x for x in factors if _self_attr(x[0]) == 'n_dim' and not x[1]]
     if len(ns) != 1:
-        return None, t
+        return None, t, False
     rest = [x for x in factors if x is not ns[0]]
-    core = None
+    core, core_inv = None, False
     for e, inv in rest:
-        if isinstance(e, ast.Constant) and isinstance(e.value, (int, float)):
+        if isinstance(e, ast.Constant) and isinstance(e.value, (int, float)) and e.value != 0:
             k = k / Fraction(e.value).limit_denominator(10 ** 9) if inv else \
                 k * Fraction(e.value).limit_denominator(10 ** 9)
-        elif core is None and not inv:
-            core = e
+        elif core is None:
+            core, core_inv = e, inv
         else:
-            return None, t
-    return k, (core if core is not None else ast.Constant(value=1))
+            return None, t, False
+    return k, (core if core is not None else ast.Constant(value=1)), core_inv
 
 
 def _volume_atom(t):
